@@ -65,6 +65,7 @@ def builder_methods(prog):
     return sorted(out, key=lambda x: x[0])
 
 
+@common.part
 def obligations(chk, prop):
     prog = chk.prog
     CF = prog.tables.struct_fields('cucumber::Cucumber')
